@@ -11,7 +11,8 @@ SemVerTuple: TypeAlias = Tuple[NonNegativeInt, NonNegativeInt, NonNegativeInt]
 """Type to be used for SemVer triples."""
 
 DIGIT: Final[str] = r"[0-9]"  # python 3: \d matches also weird other symbols!!!
-SEMVER_STR_REGEX: Final[str] = rf"{DIGIT}+\.{DIGIT}+\.{DIGIT}+"
+VER_NUM: Final[str] = rf"(?:0|[1-9]{DIGIT}*)"  # (no leading zeros, like in SemVer)
+SEMVER_STR_REGEX: Final[str] = rf"{VER_NUM}\.{VER_NUM}\.{VER_NUM}"
 
 
 class SemVerStr(FullMatch, pattern=SEMVER_STR_REGEX):
